@@ -576,12 +576,12 @@ impl<T: RealNumber, D: Distance<Vec<T>, T>> G<T, D> {
 impl<T: RealNumber, D: Distance<Vec<T>, T>> G<T, D> {
     // before the first point is visited
     pub proof fn lemma_init_q(self)
-        requires self.sym(), self.n() <= i16::MAX,
+        requires self.sym(),
         ensures
-            forall|y: Seq<i16>| (y.len() == self.n() && forall|q: int| 0 <= q < y.len() ==> #[trigger] y[q] == -3)
+            forall|y: Seq<i16>| (y.len() == self.n() && self.n() <= i16::MAX && forall|q: int| 0 <= q < y.len() ==> #[trigger] y[q] == -3)
                 ==> #[trigger] self.inv_outer(y, 0, 0),
     {
-        assert forall|y: Seq<i16>| (y.len() == self.n() && forall|q: int| 0 <= q < y.len() ==> #[trigger] y[q] == -3)
+        assert forall|y: Seq<i16>| (y.len() == self.n() && self.n() <= i16::MAX && forall|q: int| 0 <= q < y.len() ==> #[trigger] y[q] == -3)
             implies #[trigger] self.inv_outer(y, 0, 0) by {
             self.lemma_init(y);
         }
